@@ -23,6 +23,29 @@ Round 3 (histories, failure paths, process order, rare values; section "round 3"
   * the list of producers and their consumers (which op exercises which) heads the round-3 section.
   * op `order`: a slice of the self-checking cases in 3-4 FRESH interpreters, each in another order (rare
     classes first: leap year, failing calls, IP; plain first; shuffled); replay input {"order": [[op, input], ...]}.
+
+Round 4 (input shapes, aliasing, override gaps, conventions, numeric edges, rare branches; section "round 4"):
+  * header-vs-file oracle (`_file_header_data`): ground temperatures per depth, weeks per bucket and the values of
+    the three design-condition blocks are compared with the tokens of the FILE (an independent token-level reading
+    of the eight lines), in `roundtrip`, `hdr_roundtrip` and `ctors` - two reads that are wrong in the same way no
+    longer agree with each other only.
+  * exotic header text (`EXOTIC_SAFE` / `EXOTIC_ALL`: U+0085, U+2028/9, VT, FF, FS/GS/RS, NBSP, BOM, non-ASCII,
+    astral) inside every text field: hdr correspondence (safe set), hdr_roundtrip, ctors, an objhist spec.
+  * op `ctors`: one text through from_file_string (LF / CRLF), EPW(path) (header first / data first / one field
+    first; UTF-8 and latin-1 bytes -> decoding fallback), from_dict: the same EPW, text fields = the file's.
+  * op `alias`: every container a getter / export hands out is edited in place (header list, to_dict result,
+    metadata of one depth / one field, one value, the six header dictionaries, ground dictionary, location);
+    the rest of the object, a second object, later answers and later objects (from text, from_missing_values)
+    stay as they were; runs first in a fresh interpreter of the `order` layer.
+  * op `dictmin`: from_dict with optional keys left out, collections given as a tuple.
+  * objhist: hours as tuple / generator / iterator / map / dict keys, unsorted, repeated, around 29 Feb; paths
+    without extension (to_wea / to_mos / write); location numbers given as text (accepted and refused);
+    design / ground dictionaries built in reverse insertion order (`_hdr_sane`: depths ascending, design
+    values in key order); weeks over the end of the year.
+  * body: the year stamped in column 0 varies (leap years on 8760-row files and the reverse, year 0), floats of
+    magnitude 1e-12 .. 1e22 and shortest-repr edge cases.
+  * the branches of the anchored functions are listed at the head of the round-4 section; each stratum that reaches
+    one is counted as `branch:...` in the evidence.
 """
 import atexit
 import copy
@@ -39,7 +62,7 @@ from harness.core import err_name, run_oracle_cases
 PROP = 'C01'
 PROOF_MODULES = ['Ladybug.Props.C01']
 GREP_MODULES = ['Ladybug.Model.Epw', 'Ladybug.Gen.EpwFields', 'Ladybug.Gen.DesignDayTables',
-                'Ladybug.Proofs.C01Lemmas', 'Ladybug.Proofs.C01Header',
+                'Ladybug.Proofs.C01Lemmas', 'Ladybug.Proofs.C01Header', 'Ladybug.Proofs.C01Lines',
                 'Ladybug.Model.EpwObj', 'Ladybug.Proofs.C01Obj', 'Ladybug.Drv.C01', 'Ladybug.Model.Cal', 'Ladybug.Py']
 RULE = ('correspondence: full-size EPW texts (shipped files; synthetic files whose cells are distinct ids, '
         'canonical numbers or non-canonical spellings; 8760 and 8784 rows; 30..37 columns; blank lines; '
@@ -58,7 +81,15 @@ RULE = ('correspondence: full-size EPW texts (shipped files; synthetic files who
         'patterns around every setter; lazy / string / dictionary constructors; leap and non-leap files) compared step by '
         'step with the Lean object state machine (op obj) and with the state the user established (op objhist); '
         'location values zero / on a bound through every route (op locdict); the same cases in fresh interpreters '
-        'in 3-4 different orders (op order)')
+        'in 3-4 different orders (op order).  Round 4: header data compared with the tokens of the file itself '
+        '(per depth / week / design value); exotic characters inside every header text field (all str.splitlines '
+        'boundaries, non-ASCII, odd number spellings); every constructor on one text (string LF/CRLF, path with header '
+        'or data first, latin-1 bytes, dictionary; op ctors); in-place edits of every returned container with a second '
+        'object and later objects watched (op alias); from_dict without optional keys (op dictmin); hours of to_wea as '
+        'tuple / generator / iterator / map / dict keys, unsorted, repeated, around 29 Feb; paths without extension; '
+        'setter arguments as text and as dictionaries in reverse order; weeks over the year end and leap-calendar '
+        'weeks (op leapweek); year column values incl. leap years on 8760-row files; each reached branch of the '
+        'anchored functions counted as branch:* in the evidence')
 TRUSTED_BASE = [
     'translator tools/extract/epw_fields.py: copies EPWFields._fields (value type, unit, missing) and derives '
     'point_in_time of each field\'s data type from datatype/*.py (compared with the live classes by op flags)',
@@ -208,9 +239,47 @@ def rand_dst(rng):
     return a, b
 
 
-def rand_header_opts(rng, leap_tok=None, findings=False):
+# characters that are legal inside a text field of the header but that some text routines treat specially
+# (str.splitlines boundaries U+0085 U+2028 U+2029 VT FF FS GS RS, white space that strip() removes at the
+# ends only, quotes, separators of other formats, non-ASCII letters, a character outside the BMP)
+EXOTIC_SAFE = ['\u2028', '\u2029', '\x85', '\x0c', '\x0b', '\xe9', '\xfc', '\xb0', '\xa0', '\u3000', '"', "'", ';',
+               '\ufeff', '\xdf', '\u0142']
+EXOTIC_ALL = EXOTIC_SAFE + ['\x1c', '\x1d', '\x1e', '\t', '\x7f', '\u200b', '\U0001d11e', ' \u2028 ', '\x85\x85']
+EXOTIC_KEYS = ['c1', 'c2', 'city', 'state', 'country', 'source', 'station']
+
+
+def _exotify(rng, s, chars):
+    """`s` with one exotic character strictly inside it (white space at the END of a line is not data)."""
+    ch = rng.choice(chars)
+    if len(s) < 2:
+        return 'a' + ch + 'b'
+    i = rng.randrange(1, len(s))
+    return s[:i] + ch + s[i:]
+
+
+def rand_header_opts(rng, leap_tok=None, findings=False, exotic=0):
     """Random well-formed header options (findings=True also allows the regions of the recorded
-    findings: ground temperatures with > 2 decimals, incomplete design conditions)."""
+    findings: ground temperatures with > 2 decimals, incomplete design conditions; exotic: 1 = text fields
+    with characters of EXOTIC_SAFE, 2 = of EXOTIC_ALL)."""
+    o = _rand_header_opts(rng, leap_tok, findings)
+    if exotic:
+        chars = EXOTIC_SAFE if exotic == 1 else EXOTIC_ALL
+        for key in rng.sample(EXOTIC_KEYS, rng.randrange(1, 4)):
+            o[key] = _exotify(rng, o[key], chars)
+        if o['weeks'] and rng.random() < 0.5:
+            o['weeks'][0][0] = _exotify(rng, o['weeks'][0][0], chars)
+        if o['ground'] and rng.random() < 0.3:
+            o['ground'][0][1] = _exotify(rng, o['ground'][0][1], chars)
+        if exotic == 2 and rng.random() < 0.5:
+            # numbers of the LOCATION line in other spellings that float() reads (exponent, sign, blanks, 17 digits)
+            o['lat'] = rng.choice(['4.198e1', '+41.98', ' 41.98', '41.980000000000004', '1E1', '-3.5e+1', '9e1', '-0.0'])
+            o['lon'] = rng.choice(['-8.792E1', '+8.55', ' 139.765 ', '1.8e2', '-1.8E+2', '1e-12'])
+            o['tz'] = rng.choice(['-6', '+9', '5.5e0', ' 1.0', '1.4e1', '-1.2E1'])
+            o['elev'] = rng.choice(['2.01e2', '+6', '1e-12', '-1.25E1', '8848.86', '1e16'])
+    return o
+
+
+def _rand_header_opts(rng, leap_tok=None, findings=False):
     o = {}
     o['city'] = rng.choice(['Test City', 'Chicago Ohare Intl Ap', 'Long.Beach.AP', 'A/B\\C', '"VAN-NUYS-AP"', 'X'])
     o['state'] = rng.choice(['IL', '-', '', 'BW', '0', 'No'])
@@ -231,6 +300,8 @@ def rand_header_opts(rng, leap_tok=None, findings=False):
     for nm in names:
         style = rng.choice([0, 0, 1, 2])
         m, d, _ = _rand_date(rng, style)
+        if rng.random() < 0.12:
+            m, d = 12, rng.randrange(26, 32)          # a week that runs over the end of the year
         st = datetime(2017, m, d)
         en = st + timedelta(days=6)
         kind = 'Extreme' if ('Max' in nm or 'Min' in nm) and rng.random() < 0.9 else rng.choice(['Typical', 'Typical', 'Extreme'])
@@ -279,7 +350,8 @@ def _cell(mode, vt, r, k, ncols, rng):
     if vt == 'int':
         return rng.choice(['007', '+3', '12', ' 45', '2.5', '3.5', '-0.5', '17.49', '1e2', '999.0', '0'])
     return rng.choice(['1.50', '+3', '007', '-.5', '5.', '1e2', '2.50E+01', '0.0000', '999.000', ' 7.25', '-0.0',
-                       '6.50397149946918E-02', '0.001', '12345678.9'])
+                       '6.50397149946918E-02', '0.001', '12345678.9', '1e-12', '1E+16', '-2.5e-7', '1e22', '4.35',
+                       '0.1', '2.675', '1e16', '123456789012345678', '0.30000000000000004'])
 
 
 def synth_text(spec):
@@ -304,7 +376,7 @@ def synth_text(spec):
             row = [_cell('ids', VT[k] if k < 35 else 'int', r, k, ncols, rng) for k in range(ncols)]
         else:
             row = list(pool[(r * 31 + r // 97) % 97])
-            row[0] = '2017'
+            row[0] = spec.get('year', '2017')
             row[1] = str((r // 24) % 12 + 1)
             row[3] = str(r % 24 + 1)
             if ncols > 8:
@@ -448,6 +520,69 @@ def _malformed_header(rng, o):
     elif kind == 'des_short':
         lines[1] = 'DESIGN CONDITIONS,1,Climate Design Data 2009 ASHRAE Handbook,,Heating,1,2,3'
     return kind, lines
+
+
+def _hdr_branches(lines):
+    """Branches of _import_header / header that the eight lines reach (labels for the evidence counters)."""
+    out = []
+    try:
+        d = lines[1].strip().split(',')
+        if len(d) < 2:
+            out.append('design:no_count')
+        elif d[1].strip() != '1':
+            out.append('design:count_not_1')
+        else:
+            out.append('design:2009_layout' if len(d) > 2 and '2009' in d[2] else 'design:other_layout')
+            old = len(d) > 2 and '2009' in d[2]
+            for nm, i in (('Heating', 4), ('Cooling', 20 if old else 21), ('Extremes', 53 if old else 54)):
+                out.append('design:%s_marker_%s' % (nm, 'found' if len(d) > i and d[i] == nm else 'missed'))
+        w = lines[2].split(',')
+        nw = int(w[1]) if len(w) > 1 and w[1].strip() else 0
+        out.append('weeks:count_absent' if len(w) < 2 or not w[1].strip() else 'weeks:none' if nw == 0 else 'weeks:some')
+        for j in range(nw):
+            nm, kind, a, b = w[2 + 4 * j: 6 + 4 * j]
+            out.append('weeks:date_y/m/d' if a.count('/') == 2 else 'weeks:date_m/d')
+            out.append('weeks:hot' if ('Max' in nm and kind == 'Extreme') else 'weeks:cold' if ('Min' in nm and kind == 'Extreme')
+                       else 'weeks:typical' if kind == 'Typical' else 'weeks:dropped')
+            if int(b.split('/')[-2]) < int(a.split('/')[-2]):
+                out.append('weeks:over_year_end')
+        g = lines[3].strip().split(',')
+        out.append('ground:count_absent' if len(g) < 2 or not g[1] else 'ground:%s_depths' % g[1])
+        t = lines[4].strip().split(',')
+        out.append('leap:' + (t[1] if t[1] in ('Yes', 'No') else 'other'))
+        out.append('dst:' + ('none' if t[2:4] == ['0', '0'] else 'dates'))
+        for i in (5, 6):
+            c = lines[i].strip().split(',')
+            out.append('comments:' + ('no_comma' if len(c) < 2 else 'empty' if c[1:] == [''] else 'commas' if len(c) > 2 else 'plain'))
+    except (ValueError, IndexError):
+        out.append('malformed')
+    return out
+
+
+def _body_branches(spec, nlines):
+    """Branches of _import_body reached by a synthetic file."""
+    out = []
+    nc = spec.get('ncols', 35)
+    out.append('body:cells_%s35' % ('<' if nc < 35 else '>' if nc > 35 else '='))
+    lp = spec.get('leap', 'No')
+    if lp in ('Yes', 'No'):
+        out.append('body:leap_flag_' + lp)
+    else:
+        out.append('body:leap_flag_absent_%s' % ('8784_lines' if nlines == 8784 else 'other_count'))
+        yr = spec.get('year')
+        if yr is not None and spec.get('mode', 'ids') != 'ids':
+            y = int(yr)
+            isleap = y % 4 == 0 and (y % 100 != 0 or y % 400 == 0)
+            out.append('body:leap_flag_absent_year_%s' % ('agrees' if isleap == (nlines == 8784) else 'disagrees'))
+    if spec.get('blank', -1) >= 0:
+        out.append('body:blank_line')
+    if spec.get('mode') == 'noncanon':
+        out.append('body:int_cell_through_float')
+    if 'bad_cell' in spec:
+        out.append('body:cell_unparsable_' + VT[spec.get('bad_col', 6)])
+    if 'short_row' in spec:
+        out.append('body:short_row')
+    return out
 
 
 def _hash_list(xs, h=7):
@@ -639,6 +774,9 @@ def _synth_specs(ctx, rng):
     ]
     if specs[2]['leap'] == '':
         specs[2]['nrows'] = rng.choice([8760, 8784])
+    # the year stamped on the rows says nothing about the length of the file (typical years are stitched
+    # together from months of many years; year 0 is legal)
+    specs[2]['year'] = rng.choice(['2017', '2016', '1988', '2000', '1900', '2023', '0', '2024'])
     if not ctx.quick or ctx.searching:
         specs += [
             {'leap': 'No', 'mode': 'canon', 'seed': rng.randrange(10 ** 6)},
@@ -702,9 +840,12 @@ def correspondence(ctx):
             io = 'err:' + err_name(ex)
         ctx.count('op:' + op)
         ctx.count('file:' + tag)
+        if 'spec' in inp:
+            for b in _body_branches(inp['spec'], len(lines)):
+                ctx.count('branch:' + b)
         if '?' in mo and mo.startswith('ok'):
             # a float cell outside the decimal codec (> 15 digits / exponent notation): compare the rest
-            ms, is_ = mo.replace(';', ',').split(','), io.replace(';', ',').split(',')
+            ms, is_ = mo.replace(';', ',').replace(US, ',').split(','), io.replace(';', ',').replace(US, ',').split(',')
             unsup = sum(1 for a in ms if a == '?')
             ctx.count('cells_outside_codec', unsup)
             ok = len(ms) == len(is_) and all(a == b or a == '?' for a, b in zip(ms, is_))
@@ -727,7 +868,9 @@ def correspondence(ctx):
         hcases.append(('shipped:' + f, shipped_text(f).split('\n')[:8]))
     for i in range(ctx.n(150, 2500)):
         hr = random.Random(rng.randrange(10 ** 9))
-        o = rand_header_opts(hr, findings=True)
+        o = rand_header_opts(hr, findings=True, exotic=1 if i % 6 == 5 else 0)
+        if i % 6 == 5:
+            ctx.count('hdr_exotic_text')
         if rng.random() < 0.12:
             kind, lines = _malformed_header(hr, o)
             hcases.append(('malformed:' + kind, lines))
@@ -743,6 +886,8 @@ def correspondence(ctx):
         ctx.compared += 1
         ctx.count('op:hdr')
         ctx.count('hdr:' + tag.split(':')[0] + ':' + tag.split(':')[1])
+        for b in _hdr_branches(lines):
+            ctx.count('branch:hdr:' + b)
         ctx.case(('hdr', '\n'.join(lines)), nontrivial=io.startswith('ok'))
         if io.startswith('err:'):
             ctx.count('err_results')
@@ -872,6 +1017,53 @@ def _header_data(e):
             'typical_weeks': wk(e.typical_weeks), 'ground_temps': gt, 'leap': e.is_leap_year,
             'dst': (e.daylight_savings_start, e.daylight_savings_end),
             'comments': (e.comments_1, e.comments_2)}
+
+
+def _file_header_data(hl, design=True):
+    """The header data as the eight lines of the FILE spell them, after the EPW data dictionary (written from
+    the format, not from epw.py): ground temperatures per depth, typical / extreme weeks by bucket, the
+    values of the three design-condition blocks in file order."""
+    out = {}
+    g = hl[3].strip().split(',')
+    n = int(g[1]) if len(g) > 1 and g[1].strip() else 0
+    gt = {}
+    for j in range(n):
+        t = g[2 + 16 * j: 18 + 16 * j]
+        gt[float(t[0])] = (t[1], t[2], t[3], tuple(float(x) for x in t[4:16]))
+    out['ground_temps'] = gt
+    w = hl[2].split(',')
+    nw = int(w[1]) if len(w) > 1 and w[1].strip() else 0
+    hot, cold, typ = {}, {}, {}
+    for j in range(nw):
+        nm, kind, a, b = w[2 + 4 * j: 6 + 4 * j]
+        st, en = [int(x) for x in a.split('/')][-2:], [int(x) for x in b.split('/')][-2:]
+        tgt = hot if ('Max' in nm and kind == 'Extreme') else cold if ('Min' in nm and kind == 'Extreme') else \
+            typ if kind == 'Typical' else None
+        if tgt is not None:
+            tgt[nm] = (st[0], st[1], en[0], en[1])
+    out['hot_weeks'], out['cold_weeks'], out['typical_weeks'] = hot, cold, typ
+    if design:
+        d = hl[1].strip().split(',')
+        blocks = {'heating_dict': [], 'cooling_dict': [], 'extremes_dict': []}
+        if len(d) >= 3 and d[1].strip() == '1' and 'Heating' in d and 'Cooling' in d and 'Extremes' in d:
+            ih, ic, ie = d.index('Heating'), d.index('Cooling'), d.index('Extremes')
+            old = '2009' in d[2]
+            blocks = {'heating_dict': d[ih + 1:ic][:15 if old else 16], 'cooling_dict': d[ic + 1:ie][:32],
+                      'extremes_dict': d[ie + 1:][:16 if old else 15]}
+        out.update(blocks)
+    return out
+
+
+def _header_vs_file(hd, hl, design=True):
+    """First difference between the header data of an object (`_header_data`) and the file's lines (None | (key, want))."""
+    want = _file_header_data(hl, design)
+    for key, w in want.items():
+        got = hd[key]
+        if key.endswith('_dict'):
+            got = list(got.values())
+        if got != w:
+            return key, w
+    return None
 
 
 def _stamp_dt(month, day, hour, leap):
@@ -1007,6 +1199,11 @@ def check_case(op, inp):
             if got_txt[key] != want_txt[key]:
                 return {'required': 'header field %s = %r' % (key, want_txt[key]), 'observed': repr(got_txt[key]),
                         'sig': dict(sig, what='header_text', part=key)}
+        # ... and so are ground temperatures, weeks and design conditions (per depth / week / key, from the text)
+        dv = _header_vs_file(hd1, hl, design='spec' in inp)
+        if dv:
+            return {'required': 'header data %s as the file spells it: %s' % (dv[0], _short(dv[1])),
+                    'observed': _short(hd1[dv[0]]), 'sig': dict(sig, what='header_vs_file', part=dv[0])}
         # header data (dictionaries) survive as well
         hd2 = _header_data(e2)
         for key in hd1:
@@ -1025,7 +1222,7 @@ def check_case(op, inp):
     if op == 'hdr_roundtrip':
         # the eight header lines alone (lazy header load of a file): read, regenerate, read again
         hr = random.Random(inp['seed'])
-        o = rand_header_opts(hr, leap_tok=hr.choice(['No', 'Yes']))
+        o = rand_header_opts(hr, leap_tok=hr.choice(['No', 'Yes']), exotic=inp.get('exotic', 0))
         o.update(inp.get('override') or {})
         lines = gen_header(hr, o)
         sig = {'source': 'header'}
@@ -1053,6 +1250,13 @@ def check_case(op, inp):
         if list(d1['location'][1:5]) != lt[2:6] or [float(x) for x in d1['location'][5:]] != [float(x) for x in lt[6:10]]:
             return {'required': 'location %r' % (lt[1:10],), 'observed': repr(d1['location']),
                     'sig': dict(sig, what='header_text', part='location')}
+        dv = _header_vs_file(d1, hl)
+        if dv:
+            return {'required': 'header data %s as the file spells it: %s' % (dv[0], _short(dv[1])),
+                    'observed': _short(d1[dv[0]]), 'sig': dict(sig, what='header_vs_file', part=dv[0])}
+        if d1['location'][0] != lt[1].replace('\\', ' ').replace('/', ' '):
+            return {'required': 'city %r' % lt[1], 'observed': repr(d1['location'][0]),
+                    'sig': dict(sig, what='header_text', part='city')}
         e2, p2 = _header_only_epw(h1)
         try:
             d2 = view(e2)
@@ -1343,7 +1547,7 @@ def _baseline(spec):
     from ladybug.epw import EPW
     key = json.dumps(spec, sort_keys=True)
     if key not in _BASE:
-        if len(_BASE) >= 3:
+        if len(_BASE) >= 5:
             _BASE.clear()
         text = _r3_text(spec)
         e = EPW.from_file_string(text)
@@ -1381,6 +1585,8 @@ def _setter_arg(op):
         d = {} if kind == 'empty' else {k: '%s%d_%d' % ('hce'[which], tag, i) for i, k in enumerate(keys)}
         if kind == 'bad':
             del d[keys[0]]
+        if kind == 'rev':               # the same content, keys inserted in the opposite order
+            d = {k: d[k] for k in reversed(list(d))}
         return d
     if name == 'set_weeks':
         which, kind, m, dd = op[1], op[2], op[3], op[4]
@@ -1401,7 +1607,7 @@ def _setter_arg(op):
         if kind == 'bad':
             return {0.5: 'x'}
         out = {}
-        for j, depth in enumerate([0.5, 2.0][:1 + tag % 2]):
+        for j, depth in (reversed if kind == 'rev' else list)(list(enumerate([0.5, 2.0][:1 + tag % 2]))):
             hd = Header(GroundTemperature(), 'C', AnalysisPeriod(),
                         {'soil conductivity': '1.%d' % (tag % 10), 'soil density': '', 'soil specific heat': '0'})
             out[depth] = MonthlyCollection(hd, [float(tag % 7 + i + j) + 0.25 for i in range(12)], list(range(12)))
@@ -1438,19 +1644,31 @@ def _apply_header_setter(e, op):
         raise ValueError('not a header setter: %r' % (op,))
 
 
+def _num(attr, x):
+    """Number a Location setter makes of its argument: text is read with float(); latitude and longitude take
+    anything falsy ('' included) as 0."""
+    if attr in ('latitude', 'longitude') and not x:
+        return 0.0
+    return float(x)
+
+
 def _setter_valid(op):
     """Does the documented validation accept the argument?  (decided from the plain values of the op)"""
     name = op[0]
     if name == 'set_loc_bad':
         return False
     if name in ('set_design', 'set_weeks'):
-        return op[2] in ('full', 'ok', 'empty')
+        return op[2] in ('full', 'ok', 'empty', 'rev')
     if name == 'set_ground':
-        return op[1] in ('ok', 'empty')
+        return op[1] in ('ok', 'empty', 'rev')
     if name == 'loc_attr':
         lo, hi = {'latitude': (-90, 90), 'longitude': (-180, 180), 'time_zone': (-12, 14),
                   'elevation': (-1e9, 1e9)}[op[1]]
-        return op[2] is not None and lo <= op[2] <= hi
+        try:
+            v = _num(op[1], op[2])             # the setters take text for numbers (this is how a LOCATION line is read)
+        except (TypeError, ValueError):
+            return False
+        return v == v and lo <= v <= hi
     return True
 
 
@@ -1550,7 +1768,7 @@ class _Expect(object):
         if op[0] == 'set_loc':
             self.loc_plain = dict(op[1])
         elif op[0] == 'loc_attr' and self.loc_plain is not None:
-            self.loc_plain[{'latitude': 'lat', 'longitude': 'lon', 'time_zone': 'tz', 'elevation': 'elev'}[op[1]]] = op[2]
+            self.loc_plain[{'latitude': 'lat', 'longitude': 'lon', 'time_zone': 'tz', 'elevation': 'elev'}[op[1]]] = _num(op[1], op[2])
 
     def tol(self):
         return 1e-9 if self.ever_ip else 0.0
@@ -1588,7 +1806,8 @@ class _Expect(object):
 
     def check_object(self, e):
         hl, loc_t = self.header()
-        d = _hdr_diff(e.header, hl)
+        got_h = e.header
+        d = _hdr_diff(got_h, hl) or _hdr_sane(got_h)
         if d:
             return d
         loc = e.location
@@ -1738,6 +1957,47 @@ def _is_num(s):
         return False
 
 
+SHAPES = ('list', 'tuple', 'gen', 'iter', 'map', 'dictkeys')
+
+
+def _shaped(seq, shape):
+    """The same items as another kind of iterable (generator / iter / map objects can be walked ONCE)."""
+    if seq is None or shape in (None, 'list'):
+        return seq
+    if shape == 'tuple':
+        return tuple(seq)
+    if shape == 'gen':
+        return (x for x in seq)
+    if shape == 'iter':
+        return iter(list(seq))
+    if shape == 'map':
+        return map(int, [str(x) for x in seq])
+    if shape == 'dictkeys':
+        return dict.fromkeys(seq).keys() if len(set(seq)) == len(seq) else tuple(seq)
+    raise ValueError(shape)
+
+
+def _hdr_sane(lines):
+    """Facts of a regenerated header that do not depend on how the slots were filled: ground depths ascending,
+    the values of each design-condition block in the order of the key list (the harness numbers them)."""
+    import re
+    g = lines[3].strip().split(',')
+    try:
+        depths = [float(g[2 + 16 * j]) for j in range(int(g[1]))]
+    except (ValueError, IndexError):
+        return 'GROUND TEMPERATURES line is not n x 16 tokens: %s' % _short(lines[3])
+    if depths != sorted(depths):
+        return 'ground depths are not ascending: %r' % (depths,)
+    last = {}
+    for t in lines[1].strip().split(','):
+        m = re.match(r'^([hce])(\d+)_(\d+)$', t)
+        if m:
+            if int(m.group(3)) <= last.get(m.group(1), -1):
+                return 'design conditions are not in key order at %s' % t
+            last[m.group(1)] = int(m.group(3))
+    return None
+
+
 def _check_objhist(inp):
     """Operation history on ONE object.  After every step the object is compared with the state the user
     established (a fresh object of the same file on which only the accepted setters / unit conversions
@@ -1800,7 +2060,12 @@ def _check_objhist(inp):
                 text = e.to_file_string()
             else:
                 fp = os.path.join(d, 'out_%d.epw' % j)
-                ret = e.write(fp) if name == 'write_path' else e.save(fp)
+                if name == 'write_path' and j % 2:       # write() appends the extension when it is missing
+                    ret = e.write(fp[:-4])
+                else:
+                    ret = e.write(fp) if name == 'write_path' else e.save(fp)
+                if not os.path.isfile(fp):
+                    return bad('%s writes to %s' % (name, os.path.basename(fp)), 'no such file', part='path')
                 with open(fp) as f:
                     text = f.read()
                 os.remove(fp)
@@ -1830,7 +2095,9 @@ def _check_objhist(inp):
             wp = os.path.join(d, 'h_%d.wea' % j)
             refused = bool(hoys) and any(h >= ex.n or h < -ex.n for h in hoys)
             try:
-                e.to_wea(wp, hoys)
+                ret = e.to_wea(wp[:-4] if j % 2 else wp, _shaped(hoys, op[2] if len(op) > 2 and hoys else None))
+                if ret != wp or not os.path.isfile(wp):
+                    return bad('to_wea writes and returns %s' % os.path.basename(wp), repr(ret), part='path')
                 with open(wp) as f:
                     text = f.read()
                 os.remove(wp)
@@ -1843,7 +2110,10 @@ def _check_objhist(inp):
                     raise
                 sig['refused'] = True
         elif name == 'mos':
-            mp = e.to_mos(os.path.join(d, 'h_%d.mos' % j))
+            mp = os.path.join(d, 'h_%d.mos' % j)
+            ret = e.to_mos(mp[:-4] if j % 2 else mp)
+            if ret != mp or not os.path.isfile(mp):
+                return bad('to_mos writes and returns %s' % os.path.basename(mp), repr(ret), part='path')
             with open(mp) as f:
                 text = f.read()
             os.remove(mp)
@@ -1965,15 +2235,24 @@ def _rand_obj_op(rng, n, k_set):
         return rng.choice([
             ['hdr'], ['leap'], ['load'], ['field', rng.choice([0, 3, 5, 6, 9, 14, 20, 34, rng.randrange(35)])],
             ['write'], ['write'], ['write_path'], ['save'], ['wea'], ['wea', [0]], ['wea', [n - 1, 0, 12]],
-            ['wea', []], ['mos'], ['dict'], ['dict', 'adopt']])
+            ['wea', []], ['mos'], ['dict'], ['dict', 'adopt'],
+            # hours around the end of February (leap and common-year hours of the year differ from 1416 on), unsorted,
+            # repeated; the same hours as tuple / generator / iterator / map object / dictionary keys
+            ['wea', [1415, 1416, 1439, 1440, n - 1], rng.choice(SHAPES)],
+            ['wea', [12, 0, 12, n - 1, 0], rng.choice(SHAPES)],
+            ['wea', sorted(rng.sample(range(n), 4), reverse=True), rng.choice(SHAPES)],
+            ['wea', [n - 1, n - 2, 0], rng.choice(SHAPES)]])
     if r < 0.8:
         tag = rng.randrange(1000)
         st = datetime(2017, 1, 1) + timedelta(days=rng.randrange(0, 358))
         return rng.choice([
             ['ip'], ['si'], ['set_loc', _rand_loc(rng)], ['set_loc', _rand_loc(rng)],
-            ['set_design', rng.randrange(3), rng.choice(['full', 'full', 'empty']), tag],
+            ['set_design', rng.randrange(3), rng.choice(['full', 'rev', 'empty']), tag],
             ['set_weeks', rng.randrange(3), rng.choice(['ok', 'ok', 'empty']), st.month, st.day],
-            ['set_ground', rng.choice(['ok', 'ok', 'empty']), tag],
+            ['set_weeks', rng.randrange(3), 'ok', 12, rng.randrange(26, 32)],       # a week over the end of the year
+            ['set_ground', rng.choice(['ok', 'rev', 'empty']), tag],
+            ['loc_attr', rng.choice(['latitude', 'longitude', 'time_zone', 'elevation']),
+             rng.choice(['12.5', ' 7 ', '1e1', '-0.0', '0', '+3', '1_0', '5.', ''])],
             ['set_comments', rng.choice([1, 2]), rng.choice(['', '0', 'a,b,,c', 'edited %d' % tag])],
             ['set_dst', rng.choice(['0', '3/8', ' 3/ 8']), rng.choice(['0', '11/1'])],
             ['loc_attr', 'elevation', rng.choice([0, 0.0, 12.5, -3.0])],
@@ -1985,22 +2264,27 @@ def _rand_obj_op(rng, n, k_set):
         ['wea', [5, n]], ['wea', [n + 3]], ['set_loc_bad'], ['set_design', rng.randrange(3), 'bad', 1],
         ['set_design', rng.randrange(3), 'notdict', 1], ['set_weeks', rng.randrange(3), 'bad', 6, 10],
         ['set_weeks', rng.randrange(3), 'notdict', 1, 1], ['set_ground', 'bad', 1], ['set_ground', 'notdict', 1],
-        ['loc_attr', 'latitude', rng.choice([95.0, -100])], ['loc_attr', 'longitude', 200.0],
+        ['loc_attr', 'latitude', rng.choice([95.0, -100, '95', 'north', ' ', 'nan', '1e3'])], ['loc_attr', 'longitude', 200.0],
+        ['loc_attr', 'time_zone', rng.choice(['15', 'x', '-12.5'])], ['wea', [0, n, 1], rng.choice(SHAPES)],
         ['loc_attr', 'time_zone', rng.choice([15, -13.0])], ['set_values_bad', rng.choice(k_set), rng.choice([1, 24])],
         ['from_dict_bad', rng.choice([34, 0])]])
 
 
 R3_SPECS = [{'leap': 'No', 'mode': 'ids', 'seed': 1},
             {'leap': 'Yes', 'mode': 'ids', 'seed': 2, 'header': None},
-            {'leap': 'No', 'mode': 'canon', 'seed': 3, 'header': None}]
+            {'leap': 'No', 'mode': 'canon', 'seed': 3, 'header': None},
+            {'leap': 'Yes', 'mode': 'canon', 'seed': 4, 'header': None, 'year': '2016'}]     # exotic header text
 
 
 def _r3_spec(i):
     s = dict(R3_SPECS[i])
     if 'header' in s:
         o = rand_header_opts(random.Random(100 + i), leap_tok=s['leap'])
-        o['design'] = ['none', '2009', '2021'][i]
+        o['design'] = ['none', '2009', '2021', '2021'][i]
         o.update(city='Test City', state='ST', country='USA', source='TMY3', station='725300')
+        if i == 3:
+            o.update(city='S\xe3o\u2028Paulo', source='TMY\x0c3', c1='first\x85comment, caf\xe9 \u2029 end',
+                     c2='a\x1cb\x1dc\x1ed\x0be')
         s['header'] = o
     return s
 
@@ -2057,6 +2341,14 @@ R3_FIXED_HIST = [
              ['loc_attr', 'latitude', 95.0], ['loc_attr', 'longitude', -200.0], ['loc_attr', 'time_zone', 15],
              ['loc_attr', 'latitude', -90.5], ['hdr'], ['loc_attr', 'elevation', 0], ['loc_attr', 'time_zone', 0],
              ['hdr']]},
+    # every sibling of one operation in every unit state (write / write to a path / save; Wea with hours in
+    # every container; setters fed text and dictionaries in reverse order)
+    {'spec': 1, 'ctor': 'string', 'final': False,
+     'ops': [['ip'], ['save'], ['write_path'], ['wea', [1416, 0, 1416], 'gen'], ['wea', [8783], 'iter'],
+             ['si'], ['wea', [5, 3], 'map'], ['wea', [7], 'tuple'],
+             ['loc_attr', 'latitude', '12.5'], ['loc_attr', 'longitude', ''], ['loc_attr', 'time_zone', ' 3 '],
+             ['loc_attr', 'time_zone', 'x'], ['set_design', 0, 'rev', 5], ['set_design', 1, 'rev', 5],
+             ['set_design', 2, 'rev', 5], ['set_ground', 'rev', 3], ['hdr'], ['set_weeks', 1, 'ok', 12, 29], ['save']]},
 ]
 
 
@@ -2202,12 +2494,16 @@ def _order_pool(rng, big):
     fail_hist = {'spec': _r3_spec(0), 'ctor': 'string', 'final': False,
                  'ops': [['write_fail', 6], ['wea', [5, 8760]], ['set_loc_bad'], ['from_dict_bad', 34], ['write']]}
     ip_hist = {'spec': _r3_spec(0), 'ctor': 'path', 'final': False, 'ops': [['ip'], ['write'], ['mos'], ['si'], ['write']]}
+    al = {'a': _r4_spec(rng, 'Yes', 'ids'), 'b': _r4_spec(rng, 'No', 'ids', hdr={'design': '2021', 'n_ext': 15}), 'ctor': 'string', 'field': 6}
+    al['a']['header'].update(design='2009', ground=[['.5', '1.2', '', '0', ['%d.25' % i for i in range(12)]],
+                                                     ['4', '', '1600', '0.85', ['%d.75' % i for i in range(12)]]])
     if not big:
-        rare = [('missing', {'leap': True}), ('objhist', fail_hist), ('objhist', leap_hist), ('locdict', {'loc': R3_LOCS[1]})]
+        rare = [('alias', al), ('missing', {'leap': True}), ('objhist', fail_hist), ('objhist', leap_hist),
+                ('locdict', {'loc': R3_LOCS[1]})]
         plain = [('objhist', plain_hist), ('locdict', {'loc': R3_LOCS[5]}),
                  ('hdr_roundtrip', {'seed': rng.randrange(10 ** 6)}), ('flags', {'field': 6})]
         return rare, plain
-    rare = [('missing', {'leap': True}), ('objhist', leap_hist), ('objhist', fail_hist), ('objhist', ip_hist),
+    rare = [('alias', al), ('missing', {'leap': True}), ('objhist', leap_hist), ('objhist', fail_hist), ('objhist', ip_hist),
             ('locdict', {'loc': R3_LOCS[1]}), ('roundtrip', {'file': 'los_angeles_no_leap_field.epw'}),
             ('exports', {'file': 'chicago.epw', 'ip': True})]
     plain = [('missing', {'leap': False}), ('objhist', plain_hist), ('locdict', {'loc': R3_LOCS[5]}),
@@ -2270,7 +2566,10 @@ def _slot_of_op(op, cur):
                    float(a['tz']), float(a['elev']))
     if name == 'loc_attr':
         t = list(cur[0])
-        t[{'latitude': 5, 'longitude': 6, 'time_zone': 7, 'elevation': 8}[op[1]]] = float(op[2])
+        try:
+            t[{'latitude': 5, 'longitude': 6, 'time_zone': 7, 'elevation': 8}[op[1]]] = _num(op[1], op[2])
+        except (TypeError, ValueError):
+            return 0, None              # text that is not a number: refused, nothing established
         return 0, tuple(t)
     if name == 'set_design':
         arg = _setter_arg(op)
@@ -2283,7 +2582,7 @@ def _slot_of_op(op, cur):
         return 4 + op[1], (([R3_HOT, R3_COLD, R3_TYP][op[1]], (st.month, st.day, en.month, en.day)),)
     if name == 'set_ground':
         kind, tag = op[1], op[2]
-        if kind != 'ok':
+        if kind not in ('ok', 'rev'):
             return 7, ()
         return 7, tuple((depth, ('1.%d' % (tag % 10), '', '0'), tuple(float(tag % 7 + i + j) + 0.25 for i in range(12)))
                         for j, depth in enumerate([0.5, 2.0][:1 + tag % 2]))
@@ -2326,11 +2625,13 @@ def _run_obj_pair(spec, ctor, ops):
     n = _n_hours(base['si']['leap'])
     ncols = spec.get('ncols', 35)
     toks, out = [], []
-    ip = False
+    ip = ever_ip = False
     for j, op in enumerate(ops):
         name = op[0]
         if name in ('from_dict_bad',) or (name in ('set_values', 'set_values_bad') and ip):
             continue
+        if name == 'loc_attr' and _slot_of_op(op, cur)[1] is None:
+            continue            # text that float() rejects (ValueError; the model's refusals are assertion errors): oracle only
         try:
             if name in ('hdr', 'leap'):
                 toks.append('H')
@@ -2347,7 +2648,7 @@ def _run_obj_pair(spec, ctor, ops):
             elif name == 'ip':
                 toks.append('I')
                 e.convert_to_ip()
-                ip = True
+                ip = ever_ip = True
                 res = 'ok'
             elif name == 'si':
                 toks.append('S')
@@ -2378,7 +2679,7 @@ def _run_obj_pair(spec, ctor, ops):
                 hoys = op[1] if len(op) > 1 else None
                 toks.append('E' if hoys is None else 'E:' + ','.join(str(h) for h in hoys))
                 wp = os.path.join(d, 'cobj.wea')
-                e.to_wea(wp, hoys)
+                e.to_wea(wp, _shaped(hoys, op[2] if len(op) > 2 and hoys else None))
                 with open(wp) as f:
                     ls = f.read().split('\n')[6:-1]
                 idx = list(hoys) if hoys else list(range(n))
@@ -2386,7 +2687,7 @@ def _run_obj_pair(spec, ctor, ops):
                 for l, r in zip(ls, idx):
                     t = l.split()
                     a, b = int(t[3]), int(t[4])
-                    if ip:      # SI values recomputed from IP are truncated by %d: one unit of slack, then the id
+                    if ever_ip:  # SI values recomputed from IP are truncated by %d: one unit of slack, then the id
                         ea, eb = r * ncols + 15, r * ncols + 16
                         a = ea if abs(a - ea) <= 1 else a
                         b = eb if abs(b - eb) <= 1 else b
@@ -2472,7 +2773,423 @@ def _corr_objhist(ctx):
     ctx.sample({'op': 'obj', 'request': req[:300] if req else None, 'model': mo[:300]})
 
 
-_R3_OPS = {'objhist': _check_objhist, 'locdict': _check_locdict, 'order': _check_order}
+# ---------------------------------------------------------------------------------------------
+# round 4: every constructor / input shape (ctors), aliasing (alias), optional dictionary keys (dictmin)
+#
+# Branches of the anchored functions and the stratum that reaches each (counted as `branch:...` in evidence):
+#   from_file_string        no branch; text with LF / CRLF line ends, exotic characters inside header text   -> ctors, roundtrip
+#   _import_data            header not yet loaded (data first) | header loaded before the body (7 lines skipped)
+#                           | header only | UnicodeDecodeError fallback (errors='ignore')                    -> ctors (lazy, latin1), objhist
+#   _import_header          design: no record | count != 1 | 2009 layout | other layout; each marker found or not
+#                           (2017 layout, des_short); weeks: count '' / absent, y/m/d vs m/d dates, hot | cold |
+#                           typical | dropped, week over the year end; ground: count '' / 0..3 depths; leap Yes |
+#                           No | other; comments with / without commas                                        -> hdr, hdr_roundtrip
+#   _import_body            < 35 | 35 | > 35 cells; leap flag absent -> 8784 rows or not (also against the year
+#                           stamped in column 0); blank line; int cell through float(); cell that does not
+#                           parse (str/float | int); rotation of point-in-time columns                        -> brw, roundtrip
+#   header                  three dictionaries present | one missing; 2009 | 2021 keys; each week bucket empty
+#                           or not; 0..3 depths                                                               -> hdr, objhist setters
+#   to_file_string          data not loaded | loaded; IP | SI; IndexError -> ValueError; finally              -> hist, objhist
+#   to_wea                  hoys None | [] | list | tuple | one-shot iterable; path with / without '.wea'; IP   -> objhist wea
+#   to_mos / write          path with / without extension                                                     -> objhist
+#   from_dict               each optional key present | absent; is_leap_year / is_ip / is_2009_ashrae absent   -> dictmin
+#   from_missing_values     hour 0 -> 24 of the day before | sub_hour raises on 1 Jan (-> 31 Dec)             -> missing (both years)
+#   _des_dict_check         not a dict | empty | optional keys missing | required key missing                 -> objhist set_design
+#   _weeks_check            not a dict | empty | reversed period (7..21 days) | plain (7 days) | not a period -> objhist set_weeks
+#   _get_data_by_field      number outside the file                                                           -> objhist field
+# Unreachable through the public API: `elif len(st) == 2` falling through with a 1-part date (NameError /
+# stale a_per) needs a malformed file; `len(comments) > 0` is always true (split never returns []).
+
+
+def _meta_t(md):
+    return tuple(sorted((str(k), repr(v)) for k, v in md.items()))
+
+
+def _full_view(e):
+    """Everything C01 speaks about, as plain values (loads the data)."""
+    s = _snap(e)
+    return {'location': s['location'], 'header': s['header'], 'is_ip': s['is_ip'], 'leap': s['leap'],
+            'units': s['units'], 'values': s['values'], 'header_data': _header_data(e),
+            'field_metadata': tuple(_meta_t(e.import_data_by_field(k).header.metadata)
+                                    for k in range(e._num_of_fields)),
+            'ground_metadata': {dp: _meta_t(c.header.metadata) for dp, c in e.monthly_ground_temperature.items()},
+            'metadata': _meta_t(e.metadata)}
+
+
+def _view_diff(a, b, skip=()):
+    for key in a:
+        if key in skip or a[key] == b[key]:
+            continue
+        if key == 'values':
+            k = next((i for i, (x, y) in enumerate(zip(a[key], b[key])) if x != y), len(a[key]))
+            return 'values[%d]' % k
+        if key == 'header':
+            # (a latitude / longitude of zero is printed '0' by Location(...) and '0.0' when read from text)
+            i = next((i for i, (x, y) in enumerate(zip(a[key], b[key]))
+                      if x != y and not (i == 0 and _loc_line_same(x.strip(), y.strip()))), -1)
+            if i < 0 and len(a[key]) == len(b[key]):
+                continue
+            return 'header line %d: %s vs %s' % (i, _short(a[key][i]), _short(b[key][i]))
+        if isinstance(a[key], dict):
+            k = next((k for k in a[key] if k not in b[key] or a[key][k] != b[key][k]), None)
+            return '%s[%r]: %s vs %s' % (key, k, _short(a[key].get(k)), _short(b[key].get(k)))
+        return '%s: %s vs %s' % (key, _short(a[key]), _short(b[key]))
+    return None
+
+
+def _loc_placeholder(view, ref):
+    """Location(...) / Location.from_dict turn an empty state / station into placeholders ('-', None): not a
+    number of the EPW.  When that is the only difference the reference's spelling is taken."""
+    a, b = view['location'], ref['location']
+    if a != b and (tuple(x or '-' for x in a) == tuple(x or '-' for x in b) or
+                   [x for x in a if x not in ('-', 'None', None)] == [x for x in b if x]):
+        return dict(view, location=b, header=(ref['header'][0],) + tuple(view['header'][1:]))
+    return view
+
+
+def _write_bytes(name, data):
+    p = os.path.join(_tmpdir(), name)
+    with open(p, 'wb') as f:
+        f.write(data)
+    return p
+
+
+def _check_ctors(inp):
+    """One EPW text through every way of reading it: from_file_string (LF and CRLF line ends), EPW(path) with the
+    header read first or the data read first (UTF-8 file; latin-1 bytes -> decoding fallback), from_dict of the
+    dictionary.  All objects are the same EPW, and its text fields are the file's (whatever characters they hold)."""
+    from ladybug.epw import EPW
+    text = synth_text(inp['spec'])
+    lazy = inp.get('lazy', 'data_first')
+    sig = {'what': 'constructors', 'lazy': lazy}
+    hl = [l.strip() for l in text.split('\n')[:8]]
+    lt = hl[0].split(',')
+    try:
+        ref = EPW.from_file_string(text)
+        vref = _full_view(ref)
+    except Exception as ex:
+        return {'required': 'from_file_string reads a well-formed EPW text (header line 0: %s)' % _short(hl[0]),
+                'observed': '%s: %s' % (type(ex).__name__, _short(str(ex))), 'sig': dict(sig, route='string', part='raises')}
+    want_txt = {'comments_1': hl[5].split(',', 1)[1] if ',' in hl[5] else '',
+                'comments_2': hl[6].split(',', 1)[1] if ',' in hl[6] else '',
+                'dst': hl[4].split(',')[2:4], 'city': lt[1].replace('\\', ' ').replace('/', ' '),
+                'location_text': lt[2:6]}
+    got_txt = {'comments_1': ref.comments_1, 'comments_2': ref.comments_2,
+               'dst': [ref.daylight_savings_start, ref.daylight_savings_end], 'city': ref.location.city,
+               'location_text': [ref.location.state, ref.location.country, ref.location.source, ref.location.station_id]}
+    for key in want_txt:
+        if got_txt[key] != want_txt[key]:
+            return {'required': 'from_file_string: header field %s = %r' % (key, want_txt[key]),
+                    'observed': repr(got_txt[key]), 'sig': dict(sig, route='string', part=key)}
+    dv = _header_vs_file(vref['header_data'], hl)
+    if dv:
+        return {'required': 'from_file_string: header data %s as the file spells it: %s' % (dv[0], _short(dv[1])),
+                'observed': _short(vref['header_data'][dv[0]]), 'sig': dict(sig, route='string', part=dv[0])}
+
+    def by_path(data, name, lazy=lazy):
+        e = EPW(_write_bytes(name, data))
+        if lazy == 'header_first':
+            e.location
+            e.header
+        elif lazy == 'field_first':
+            e.import_data_by_field(6)
+        return e
+    routes = [('path', lambda: by_path(text.encode('utf-8'), 'ct.epw'), vref)]
+    if inp.get('crlf'):
+        crlf = text.replace('\n', '\r\n')
+        routes.append(('string_crlf', lambda: EPW.from_file_string(crlf), vref))
+        routes.append(('path_crlf', lambda: by_path(crlf.encode('utf-8'), 'ct_crlf.epw'), vref))
+    if inp.get('latin1'):
+        # bytes that are not UTF-8: the reader falls back to dropping them
+        hi = [c for c in set(text) if ord(c) > 127]
+        if hi and all(ord(c) < 256 for c in hi):
+            dropped = ''.join(c for c in text if ord(c) < 128)
+            vdrop = _full_view(EPW.from_file_string(dropped))
+            for lz in ('header_first', 'data_first'):      # both arms of the fallback branch
+                routes.append(('path_latin1:' + lz, lambda lz=lz: by_path(text.encode('latin-1'), 'ct_l1.epw', lz), vdrop))
+    routes.append(('dict', lambda: EPW.from_dict(copy.deepcopy(ref.to_dict())), vref))
+    if inp.get('routes'):
+        routes = [r for r in routes if r[0].split(':')[0] in inp['routes']]
+    for route, make, want in routes:
+        try:
+            v = _full_view(make())
+        except Exception as ex:
+            return {'required': 'the text is read through %s as it is through from_file_string' % route,
+                    'observed': '%s: %s' % (type(ex).__name__, _short(str(ex))), 'sig': dict(sig, route=route, part='raises')}
+        if route == 'dict':
+            v = _loc_placeholder(v, want)
+        dd = _view_diff(want, v)
+        if dd and route.startswith('path_latin1') and not _view_diff(vref, v):
+            dd = None           # (a reader that decodes the bytes as latin-1 instead of dropping them is just as good)
+        if dd:
+            return {'required': 'the object read through %s equals the one read by from_file_string' % route,
+                    'observed': dd, 'sig': dict(sig, route=route, part=dd.split('[')[0].split(':')[0].split(' ')[0])}
+    return None
+
+
+_TOKEN = [0]
+
+
+def _token():
+    _TOKEN[0] += 1
+    return 'edit-%d-%d' % (os.getpid(), _TOKEN[0])
+
+
+def _check_alias(inp):
+    """Nothing an EPW hands out is shared with another slot, another object of the class or a later answer:
+    every container a getter or an export returns is edited in place; everything else of the object, a second
+    object read from another text, and objects made afterwards stay as they were."""
+    from ladybug.epw import EPW
+    from ladybug.analysisperiod import AnalysisPeriod
+    ta, tb = synth_text(inp['a']), synth_text(inp['b'])
+    ctor = inp.get('ctor', 'string')
+    sig = {'what': 'alias', 'ctor': ctor}
+
+    def make(text, name):
+        if ctor == 'path':
+            return EPW(_write_bytes(name, text.encode('utf-8')))
+        if ctor == 'dict':
+            return EPW.from_dict(copy.deepcopy(EPW.from_file_string(text).to_dict()))
+        return EPW.from_file_string(text)
+    m0 = _full_view(EPW.from_missing_values(inp['a'].get('leap') == 'Yes'))
+    a, b = make(ta, 'al_a.epw'), make(tb, 'al_b.epw')
+    va0, vb0 = _full_view(a), _full_view(b)
+
+    def bad(step, req, obs, **kw):
+        return {'required': req + ' (after the edit %r)' % step, 'observed': obs, 'sig': dict(sig, edit=step, **kw)}
+
+    def others(step, expect_changed):
+        """a differs from va0 only in `expect_changed` (keys of the view); b is untouched."""
+        va = _full_view(a)
+        dd = _view_diff(va0, va, skip=expect_changed)
+        if dd:
+            return bad(step, 'only %s of the edited object changes' % '/'.join(expect_changed), dd, victim='same_object')
+        dd = _view_diff(vb0, _full_view(b))
+        if dd:
+            return bad(step, 'a second EPW object is not affected', dd, victim='second_object')
+        return None
+    # -- answers asked twice, the first one kept and edited
+    h1 = a.header
+    keep = list(h1)
+    h1[0] = 'x'
+    h1.append('y')
+    if list(a.header) != keep:
+        return bad('header list', 'EPW.header answers the same again', _short(a.header), victim='later_answer')
+    d1 = a.to_dict()
+    k1 = copy.deepcopy(d1)
+    d2 = a.to_dict()
+    if d1 != k1 or d2 != k1:
+        return bad('to_dict twice', 'a second to_dict leaves the first result as it was and equals it', 'differs',
+                   victim='later_answer')
+    d1['data_collections'][0]['values'][0] = -12345          # (to_dict exports copies: /repo 0c2fb64, da53f13)
+    d1['data_collections'][6]['header']['metadata'][_token()] = 1
+    d1['data_collections'].pop()
+    d1['location']['city'] = _token()
+    d1['extreme_hot_weeks'][_token()] = 1
+    d1['monthly_ground_temps'][-1.0] = 1
+    for key in ('metadata', 'heating_dict', 'cooling_dict', 'extremes_dict'):
+        d1[key][_token()] = 'edited'
+    if a.to_dict() != k1:
+        d3 = a.to_dict()
+        key = next((k for k in k1 if d3.get(k) != k1[k]), '?')
+        return bad('to_dict result', 'editing the lists / dictionaries handed out by to_dict does not reach the object',
+                   'third to_dict differs in %r' % key, victim='later_answer', part=key)
+    hoys = [3, 1, 3]
+    a.to_wea(os.path.join(_tmpdir(), 'al.wea'), hoys)
+    if hoys != [3, 1, 3]:
+        return bad('to_wea hoys', 'to_wea leaves its argument as it was', repr(hoys), victim='argument')
+    r = others('exports', ())
+    if r:
+        return r
+    # -- ground temperatures: the metadata of one depth
+    depths = sorted(a.monthly_ground_temperature)
+    changed = ['header', 'header_data', 'ground_metadata']
+    if len(depths) >= 1:
+        tok = _token()
+        a.monthly_ground_temperature[depths[0]].header.metadata['soil conductivity'] = tok
+        va = _full_view(a)
+        for dp in depths[1:]:
+            if va['ground_metadata'][dp] != va0['ground_metadata'][dp]:
+                return bad('ground metadata', 'the metadata of depth %s stays' % dp, _short(va['ground_metadata'][dp]),
+                           victim='other_depth')
+        want = ta.split('\n')[3].strip().split(',')
+        j = [float(want[2 + 16 * i]) for i in range(len(depths))].index(depths[0])
+        # the header line lists the depths in ascending order, each with its own properties and '%.2f' values
+        exp = ['GROUND TEMPERATURES', str(len(depths))]
+        for dp in depths:
+            i = [float(want[2 + 16 * q]) for q in range(len(depths))].index(dp)
+            t = want[2 + 16 * i: 18 + 16 * i]
+            exp += [str(dp), tok if dp == depths[0] else t[1], t[2], t[3]] + ['%.2f' % float(x) for x in t[4:16]]
+        got = va['header'][3].strip().split(',')
+        if got != exp:
+            k = next((q for q in range(min(len(got), len(exp))) if got[q] != exp[q]), -1)
+            return bad('ground metadata', 'GROUND TEMPERATURES line with the edited property at depth %s only' % depths[0],
+                       'token %d is %r, expected %r' % (k, got[k] if 0 <= k < len(got) else None,
+                                                        exp[k] if 0 <= k < len(exp) else None), victim='header_line')
+        r = others('ground metadata', changed)
+        if r:
+            return r
+    # -- one field: metadata, one value
+    k = inp.get('field', 6)
+    tok = _token()
+    a.import_data_by_field(k).header.metadata[tok] = tok
+    va = _full_view(a)
+    for q in range(len(va['field_metadata'])):
+        if q != k and va['field_metadata'][q] != va0['field_metadata'][q]:
+            return bad('field metadata', 'the metadata of field %d stays' % q, _short(va['field_metadata'][q]), victim='other_field')
+    if va['metadata'] != va0['metadata']:
+        return bad('field metadata', 'EPW.metadata stays', _short(va['metadata']), victim='epw_metadata')
+    changed.append('field_metadata')
+    r = others('field metadata', changed)
+    if r:
+        return r
+    c = a.import_data_by_field(k)
+    c[5] = c[5] + 1 if VT[k] != 'str' else 'edited'
+    va = _full_view(a)
+    for q in range(len(va['values'])):
+        if q != k and va['values'][q] != va0['values'][q]:
+            return bad('field value', 'the values of field %d stay' % q, 'changed', victim='other_field')
+    changed.append('values')
+    r = others('field value', changed)
+    if r:
+        return r
+    # -- the dictionaries of the header slots
+    hd = lambda: _header_data(a)
+    for nm, getter, val in (('heating_dict', lambda: a.heating_design_condition_dictionary, 'v'),
+                            ('cooling_dict', lambda: a.cooling_design_condition_dictionary, 'v'),
+                            ('extremes_dict', lambda: a.extreme_design_condition_dictionary, 'v'),
+                            ('hot_weeks', lambda: a.extreme_hot_weeks, AnalysisPeriod(7, 1, 0, 7, 7, 23)),
+                            ('cold_weeks', lambda: a.extreme_cold_weeks, AnalysisPeriod(1, 1, 0, 1, 7, 23)),
+                            ('typical_weeks', lambda: a.typical_weeks, AnalysisPeriod(4, 1, 0, 4, 7, 23)),
+                            ('ground_temps', lambda: a.monthly_ground_temperature, None)):
+        before = hd()
+        tok = _token()
+        if val is None:
+            src = a.monthly_ground_temperature
+            if not src:
+                continue
+            src[-7.5] = src[depths[0]].duplicate()
+        else:
+            getter()[tok] = val
+        after = hd()
+        for key in before:
+            if key != nm and before[key] != after[key]:
+                return bad(nm, 'header slot %s stays' % key, _short(after[key]), victim='other_slot')
+        vb = _full_view(b)
+        if vb['header_data'] != vb0['header_data']:
+            return bad(nm, 'a second EPW object is not affected', _view_diff(vb0, vb), victim='second_object')
+    a.location.city = _token()
+    a.location.elevation = 4321.5
+    if _full_view(b) != vb0:
+        return bad('location', 'a second EPW object is not affected', _view_diff(vb0, _full_view(b)), victim='second_object')
+    # -- objects made afterwards
+    dd = _view_diff(va0, _full_view(make(ta, 'al_c.epw')))
+    if dd:
+        return bad('all', 'an object read afterwards from the same text is what it was before', dd, victim='later_object')
+    dd = _view_diff(va0, _loc_placeholder(_full_view(EPW.from_file_string(ta)), va0))
+    if dd:
+        return bad('all', 'from_file_string afterwards gives what it gave before', dd, victim='later_object')
+    dd = _view_diff(m0, _full_view(EPW.from_missing_values(inp['a'].get('leap') == 'Yes')))
+    if dd:
+        return bad('all', 'from_missing_values afterwards gives what it gave before', dd, victim='later_object')
+    return None
+
+
+OPTIONAL_DICT_KEYS = ['metadata', 'heating_dict', 'cooling_dict', 'extremes_dict', 'extreme_hot_weeks',
+                      'extreme_cold_weeks', 'typical_weeks', 'monthly_ground_temps', 'is_ip', 'daylight_savings_start',
+                      'daylight_savings_end', 'comments_1', 'comments_2']
+_DICT_SETTER = {'heating_dict': 'heating_design_condition_dictionary', 'cooling_dict': 'cooling_design_condition_dictionary',
+                'extremes_dict': 'extreme_design_condition_dictionary', 'extreme_hot_weeks': 'extreme_hot_weeks',
+                'extreme_cold_weeks': 'extreme_cold_weeks', 'typical_weeks': 'typical_weeks',
+                'monthly_ground_temps': 'monthly_ground_temperature'}
+_DICT_DEFAULT = {'daylight_savings_start': '0', 'daylight_savings_end': '0', 'comments_1': '', 'comments_2': ''}
+
+
+def _check_dictmin(inp):
+    """from_dict with optional keys left out: the slots of the absent keys are empty / default, everything else is
+    what the dictionary holds (compared with an object built from the full dictionary on which the same slots
+    were emptied through the public setters); the argument is left as it was; containers in other shapes
+    (tuple of collections) are read alike."""
+    from ladybug.epw import EPW
+    base = _baseline(inp['spec'])
+    src = EPW.from_file_string(base['text'])
+    full = copy.deepcopy(src.to_dict())
+    drop = list(inp['drop'])
+    sig = {'what': 'dict_optional_keys', 'dropped': '+'.join(sorted(drop)) if len(drop) < 3 else '%d keys' % len(drop)}
+    d = {k: v for k, v in copy.deepcopy(full).items() if k not in drop}
+    if inp.get('shape') == 'tuple':
+        d['data_collections'] = tuple(d['data_collections'])
+    keep = copy.deepcopy(d)
+    try:
+        e = EPW.from_dict(d)
+    except Exception as ex:
+        return {'required': 'from_dict accepts a dictionary without the optional keys %r' % (drop,),
+                'observed': '%s: %s' % (type(ex).__name__, _short(str(ex))), 'sig': dict(sig, part='raises')}
+    if d != keep:
+        return {'required': 'from_dict leaves its argument unchanged', 'observed': 'keys now %r' % sorted(d),
+                'sig': dict(sig, part='argument')}
+    twin = EPW.from_dict(copy.deepcopy(full))
+    for k in drop:
+        if k in _DICT_SETTER:
+            setattr(twin, _DICT_SETTER[k], {})
+        elif k in _DICT_DEFAULT:
+            setattr(twin, k, _DICT_DEFAULT[k])
+    skip = ('metadata',) if 'metadata' in drop else ()
+    dd = _view_diff(_full_view(twin), _full_view(e), skip=skip)
+    if dd:
+        return {'required': 'absent optional keys %r give empty / default slots and nothing else changes' % (drop,),
+                'observed': dd, 'sig': dict(sig, part=dd.split('[')[0].split(':')[0].split(' ')[0])}
+    if 'metadata' in drop and e.metadata != {}:
+        return {'required': 'absent metadata key gives {}', 'observed': _short(e.metadata), 'sig': dict(sig, part='metadata')}
+    return None
+
+
+LEAP_WEEK_NAME = 'Winter - Week Nearest Min Temperature For Period'
+
+
+def _check_leapweek(inp):
+    """A typical / extreme week of a LEAP-year file, judged in the file's own calendar (2016): the week read has
+    the dates the file spells, and it is a week the EPW's own setter accepts (to_dict -> from_dict goes through
+    that setter).  (Convention between two modules: the header is read before the leap flag and the weeks are
+    built as common-year AnalysisPeriods.)"""
+    from ladybug.epw import EPW
+    from ladybug.analysisperiod import AnalysisPeriod
+    (sm, sd), (em, ed) = inp['start'], inp['end']
+    o = rand_header_opts(random.Random(5), leap_tok='Yes')
+    o['weeks'] = [[LEAP_WEEK_NAME, 'Extreme', '%d/%d' % (sm, sd), '%d/%d' % (em, ed)]]
+    lines = gen_header(random.Random(5), o)
+    a, b = datetime(2016, sm, sd), datetime(2016, em, ed)
+    spans = (a <= datetime(2016, 2, 29) <= b) if a <= b else False
+    sig = {'what': 'leap_week', 'spans_feb29': spans}
+    e, p = _header_only_epw(lines)
+    try:
+        try:
+            wk = dict(e.extreme_cold_weeks)
+        except Exception as ex:
+            return {'required': 'a leap-year file with the week %d/%d - %d/%d is read' % (sm, sd, em, ed),
+                    'observed': '%s: %s' % (type(ex).__name__, ex), 'sig': dict(sig, symptom='raises')}
+        if e.is_leap_year is not True:
+            return {'required': 'is_leap_year True', 'observed': repr(e.is_leap_year), 'sig': dict(sig, symptom='flag')}
+        ap = wk.get(LEAP_WEEK_NAME)
+        got = None if ap is None else (ap.st_month, ap.st_day, ap.end_month, ap.end_day)
+        if got != (sm, sd, em, ed):
+            return {'required': 'week %r as the file spells it' % ((sm, sd, em, ed),), 'observed': repr(got),
+                    'sig': dict(sig, symptom='dates')}
+        try:
+            e.extreme_cold_weeks = {k: AnalysisPeriod.from_dict(v.to_dict()) for k, v in wk.items()}
+        except AssertionError as ex:
+            return {'required': 'the week read from the file is one the weeks setter accepts (EPW.from_dict(to_dict()) '
+                                'assigns it through that setter)', 'observed': 'AssertionError: %s' % ex,
+                    'sig': dict(sig, symptom='setter_refuses_own_week')}
+        if e.header[2].strip().split(',')[2:] != lines[2].split(',')[2:]:
+            return {'required': 'weeks line ' + lines[2], 'observed': e.header[2].strip(), 'sig': dict(sig, symptom='line')}
+    finally:
+        os.remove(p)
+    return None
+
+
+_R3_OPS = {'objhist': _check_objhist, 'locdict': _check_locdict, 'order': _check_order, 'ctors': _check_ctors,
+           'alias': _check_alias, 'dictmin': _check_dictmin, 'leapweek': _check_leapweek}
 
 
 def _r3_oracle_cases(ctx):
@@ -2492,13 +3209,88 @@ def _r3_oracle_cases(ctx):
         for nm, v in (('longitude', -200.0), ('time_zone', 15), ('latitude', -90.5)):
             yield 'objhist', {'spec': _r3_spec(0), 'ctor': 'string', 'final': False,
                               'ops': [['write'], ['loc_attr', nm, v], ['write']]}
+    for c in _r4_oracle_cases(ctx, rng, big):
+        yield c
     for j in range(n_hist):
-        yield 'objhist', _gen_objhist(rng, (j + ctx.seed) % 3, rng.randrange(3, 6 if not big else 12))
+        yield 'objhist', _gen_objhist(rng, (j + ctx.seed) % 4, rng.randrange(3, 6 if not big else 12))
     for inp in _PENDING_INPUTS:
         yield 'order', inp
 
 
 _PENDING_INPUTS = []
+
+
+def _r4_spec(rng, lp, mode, exotic=0, hdr=None, **kw):
+    s = {'leap': lp, 'mode': mode, 'seed': rng.randrange(10 ** 6)}
+    s['header'] = rand_header_opts(random.Random(s['seed']), leap_tok=lp, exotic=exotic)
+    if lp == '':
+        s['nrows'] = rng.choice([8760, 8784])
+    if mode != 'ids':
+        s['year'] = rng.choice(['2017', '2016', '1988', '1900', '0', '2023'])
+    s['header'].update(hdr or {})
+    s.update(kw)
+    return s
+
+
+def _every_exotic_spec():
+    """Fixed corpus: every exotic character inside the text fields of one header."""
+    s = {'leap': 'No', 'mode': 'ids', 'seed': 11}
+    o = rand_header_opts(random.Random(11), leap_tok='No')
+    o.update(c1='x' + 'x'.join(EXOTIC_ALL) + 'x', c2='caf\xe9\u2028, second\x0cpart,,\x85', city='S\xe3o\u2029Paulo\x1cAP',
+             state='B\x85W', source='TMY\x0bx', country='D\u2028E', station='10\x1d7290')
+    o['weeks'] = [['Summer\u2028Max', 'Extreme', '7/13', '7/19'], ['Winter\x0cMin', 'Extreme', '12/28', '1/3'],
+                  ['Spring\x85Week', 'Typical', '2015/04/01', '2015/04/07']]
+    o['ground'] = [['2', '1\u2028.2', '', '0.85', ['%d.00' % i for i in range(12)]],
+                   ['.5', '', '16\x0c00', '', ['%d.50' % i for i in range(12)]]]
+    s['header'] = o
+    return s
+
+
+def _r4_oracle_cases(ctx, rng, big):
+    """Round 4: constructors / input shapes, aliasing, optional dictionary keys."""
+    # (quick tier: a subset of the routes per case; together they still cover every route)
+    yield 'ctors', dict({'spec': _every_exotic_spec(), 'lazy': 'header_first', 'crlf': True},
+                        **({} if big else {'routes': ['path', 'string_crlf', 'dict']}))
+    s = _r4_spec(rng, 'No', 'ids')
+    s['header'].update(c1='Caf\xe9 data', city='Z\xfcrich', state='\xd6')
+    yield 'ctors', dict({'spec': s, 'latin1': True, 'lazy': rng.choice(['header_first', 'data_first'])},
+                        **({} if big else {'routes': ['path_latin1']}))
+    # files without the leap flag (rare branch of _import_body: the NUMBER OF ROWS decides): the year stamped on the
+    # rows disagrees with the length (typical years are stitched from months of many years) or agrees with it
+    flagless = [(8784, '2023'), (8760, '2016'), (8760, '0'), (8784, '1900'), (8760, '2000'), (8784, '2024'), (8760, '2017')]
+    for j, (nr, yr) in enumerate(flagless):
+        if big or j == ctx.seed % 2 or j == 2 + ctx.seed % 5:
+            yield 'ctors', dict({'spec': _r4_spec(rng, '', 'canon', nrows=nr, year=yr), 'lazy': ['data_first', 'header_first'][j % 2]},
+                                **({} if big and not ctx.quick else {'routes': ['path']}))
+    for j in range(1 if not big else (6 if ctx.quick else 18)):
+        lp = ['Yes', '', 'No'][(j + ctx.seed) % 3]
+        yield 'ctors', dict({'spec': _r4_spec(rng, lp, rng.choice(['ids', 'canon', 'noncanon']), exotic=rng.choice([0, 1, 2, 2])),
+                             'lazy': ['header_first', 'data_first', 'field_first'][(j + ctx.seed // 3) % 3],
+                             'crlf': rng.random() < 0.4}, **({} if big else {'routes': ['path', 'path_crlf']}))
+    for j in range(1 if not big else (3 if ctx.quick else 9)):
+        two = {'ground': [['.5', '1.2', '', '0', ['%d.25' % i for i in range(12)]],
+                          ['4', '', '1600', '0.85', ['%d.75' % i for i in range(12)]]]}
+        a = _r4_spec(rng, rng.choice(['No', 'Yes']), 'ids')
+        if j % 2 == 0:
+            a['header'].update(two)
+        yield 'alias', {'a': a, 'b': _r4_spec(rng, 'No', 'canon', hdr={'design': '2009'}),
+                        'ctor': ['string', 'path', 'dict'][(j + ctx.seed) % 3], 'field': rng.choice([6, 0, 5, 14, 33, 20])}
+    drops = [list(OPTIONAL_DICT_KEYS), rng.sample(OPTIONAL_DICT_KEYS, 1)]
+    if big:
+        drops += [[k] for k in OPTIONAL_DICT_KEYS] + [rng.sample(OPTIONAL_DICT_KEYS, rng.randrange(2, 6)) for _ in range(3)]
+    for j, drop in enumerate(drops):
+        yield 'dictmin', {'spec': _r3_spec(1 + (j + ctx.seed) % 2), 'drop': drop, 'shape': ['tuple', 'list'][j % 2]}
+    for _ in range(300 if not big else 3000):
+        yield 'hdr_roundtrip', {'seed': rng.randrange(10 ** 9), 'exotic': rng.choice([1, 2])}
+    # weeks of leap-year files in the leap calendar: clear of 29 Feb, and the recorded finding (spanning 29 Feb)
+    for st, en in (((7, 13), (7, 19)), ((12, 29), (1, 4)), ((1, 1), (1, 7)), ((3, 1), (3, 7)), ((2, 22), (2, 28)),
+                   ((2, 26), (3, 3)), ((2, 23), (2, 29)), ((2, 29), (3, 6))):
+        yield 'leapweek', {'start': list(st), 'end': list(en)}
+    for _ in range(5 if not big else 60):
+        a = datetime(2016, 1, 1) + timedelta(days=rng.randrange(366))
+        b = a + timedelta(days=6)
+        if not a <= datetime(2016, 2, 29) <= b:
+            yield 'leapweek', {'start': [a.month, a.day], 'end': [b.month, b.day]}
 
 
 def _start_orders(ctx):
@@ -2579,13 +3371,46 @@ def _count_hist(ctx, cases):
             for k in ('lat', 'lon', 'tz', 'elev'):
                 if not a[k]:
                     ctx.count('locdict_zero:' + k)
+        elif op == 'ctors':
+            ctx.count('branch:import:' + inp.get('lazy', 'data_first'))
+            ctx.count('branch:import:line_ends_' + ('crlf+lf' if inp.get('crlf') else 'lf'))
+            if inp.get('latin1'):
+                ctx.count('branch:import:decode_fallback')
+            if any(ord(c) > 127 or c in '\x0b\x0c\x1c\x1d\x1e' for c in json.dumps(inp['spec']['header'], ensure_ascii=False)):
+                ctx.count('branch:import:exotic_header_text')
+            for b in _body_branches(inp['spec'], inp['spec'].get('nrows', 8784 if inp['spec']['leap'] == 'Yes' else 8760)):
+                ctx.count('branch:' + b)
+        elif op == 'dictmin':
+            for k in inp['drop']:
+                ctx.count('branch:from_dict:absent:' + k)
+            ctx.count('branch:from_dict:collections_as_' + inp.get('shape', 'list'))
+        elif op == 'alias':
+            ctx.count('alias_ctor:' + inp.get('ctor', 'string'))
+        elif op == 'roundtrip' and 'spec' in inp:
+            sp = inp['spec']
+            nl = sp.get('nrows', 8784 if sp['leap'] == 'Yes' else 8760) + (1 if sp.get('blank', -1) >= 0 else 0)
+            for b in _body_branches(sp, nl):
+                ctx.count('branch:' + b)
+        elif op == 'hdr_roundtrip' and inp.get('exotic'):
+            ctx.count('hdr_roundtrip_exotic')
+        if op == 'objhist':
+            for o in inp['ops']:
+                if o[0] == 'wea':
+                    ctx.count('branch:wea:hoys_' + ('none' if len(o) < 2 or o[1] is None else 'empty' if not o[1] else
+                                                    (o[2] if len(o) > 2 else 'list')))
+                elif o[0] == 'set_weeks' and o[2] == 'ok':
+                    ctx.count('branch:weeks_check:' + ('reversed' if (o[3], o[4]) >= (12, 26) else 'plain'))
+                elif o[0] == 'loc_attr' and isinstance(o[2], str):
+                    ctx.count('branch:location_setter:text_' + ('accepted' if _setter_valid(o) else 'refused'))
+                elif o[0] in ('set_design', 'set_ground') and 'rev' in o[1:3]:
+                    ctx.count('branch:setter_dict_in_reverse_order')
         yield op, inp
 
 
 def oracle(ctx):
     _start_orders(ctx)
     run_oracle_cases(ctx, _count_hist(ctx, _r3_oracle_cases(ctx)), check_case)
-    run_oracle_cases(ctx, _oracle_cases(ctx), check_case)
+    run_oracle_cases(ctx, _count_hist(ctx, _oracle_cases(ctx)), check_case)
     for p in list(_PENDING.values()):
         p.kill()
     _PENDING.clear()
@@ -2605,7 +3430,11 @@ LEVEL_TEXT = ('Machine-checked Lean 4 theorems over an executable model of epw.p
               'operations (reads, exports, unit conversions, header-slot setters, value assignment, refused calls) every '
               'history ends in the loaded state of the object on which only the accepted state changes were performed '
               '(C01_history_refines_fresh), a call that answers with an error leaves every observation unchanged '
-              '(C01_refused_preserves), reads are pure and commute (C01_read_pure, C01_reads_commute). The field table is regenerated from epw.py on '
+              '(C01_refused_preserves), reads are pure and commute (C01_read_pure, C01_reads_commute). Input shapes: a text is cut '
+              'into lines at line feeds only, whatever other characters the header holds (C01_lines_split_only_at_newline, '
+              'C01_file_sections); to_wea answers each requested hour on its own, so order, repetition and container of the '
+              'hours do not matter (C01_wea_hoys_pointwise, C01_wea_all_hours); every depth of the ground-temperature line '
+              'keeps its own soil properties in any spelling of the file (C01_ground_each_depth_own_properties). The field table is regenerated from epw.py on '
               'every run and the model is compared with the real class on shipped and synthetic full-size files, '
               'header blocks and operation histories.')
 LEVEL_NOTE = ('Trusted: Lean kernel; axioms propext/Classical.choice/Quot.sound only; the field-table extractor; the '
@@ -2615,6 +3444,7 @@ LEVEL_NOTE = ('Trusted: Lean kernel; axioms propext/Classical.choice/Quot.sound 
               'level); IP/SI conversion is C06\'s; nested to_dict forms of Location/AnalysisPeriod/MonthlyCollection are '
               'C07\'s. Recorded findings: ground temperatures are rewritten with 2 decimals, incomplete design '
               'conditions are dropped (both with counterexample theorems), atmospheric pressure is not treated as '
-              'point-in-time.')
+              'point-in-time; in leap-year files a typical / extreme week containing 29 Feb is read in the common-year calendar '
+              '(6 days, moved end day, or unreadable header).')
 TECHNIQUE = ('Lean 4 proof (list induction, getElem extensionality, omega; C08 calendar theorems) about a '
              'value-parametric model tied to epw.py by a regenerated field table and differential correspondence')
